@@ -17,7 +17,7 @@ enum Node {
 
 type Tree = BTreeMap<String, Node>;
 
-const FILES: &[&str] = &["a.txt", "b c.dat", "é.bin", "d1/a.txt", "d1/x.txt", "d 2/n.txt", "dé/sub/deep.txt", "d1/sub/y.dat", "new/made/f.txt", "a.txt/z.txt", "d1/x.txt/w.txt"];
+const FILES: &[&str] = &["a.txt", "b c.dat", "é.bin", "d1/a.txt", "d1/x.txt", "d 2/n.txt", "dé/sub/deep.txt", "d1/sub/y.dat", "new/made/f.txt", "a.txt/z.txt", "d1/x.txt/w.txt", "A.TXT", "Notes.Txt", "d1/A.txt"];
 const DIRS: &[&str] = &["d1", "d 2", "dé", "dé/sub", "d1/sub", "e1", "e1/e2", "new"];
 
 fn parent(p: &str) -> Option<&str> {
@@ -462,6 +462,36 @@ fn case(t: &mut Tape, st: &mut Stats, max_len: usize) -> Verdict {
                     }
                 };
             }
+            12 if t.chance(1, 3) => {
+                // a pattern with literal letters: direct children of one directory whose name ends in .txt, letter case included
+                let d = if t.flip() { String::new() } else { "d1/".to_string() };
+                cmd = "glob_array";
+                args = vec![format!("{}/{}*.txt", root, d)];
+                let r = exec(&mut ctx, cmd, &args);
+                st.class("listing-by-a-pattern-with-literal-letters");
+                verdict = match &r {
+                    CommandResult::Continue(Some(h)) => {
+                        let len: usize = match exec(&mut ctx, "array_length", &[h.clone()]) {
+                            CommandResult::Continue(Some(l)) => l.parse().unwrap_or(0),
+                            _ => 0,
+                        };
+                        let mut got = std::collections::BTreeSet::new();
+                        for i in 0..len {
+                            if let CommandResult::Continue(Some(v)) = exec(&mut ctx, "array_get", &[h.clone(), i.to_string()]) {
+                                got.insert(v);
+                            }
+                        }
+                        let _ = exec(&mut ctx, "release", &[h.clone()]);
+                        let want: std::collections::BTreeSet<String> = m.keys().filter(|k| k.starts_with(&d) && !k[d.len()..].contains('/') && k.ends_with(".txt")).map(|k| abs(k)).collect();
+                        if got == want && got.len() == len {
+                            Ok(())
+                        } else {
+                            Err(format!("listing {:?}, expected {:?}", got, want))
+                        }
+                    }
+                    other => Err(format!("no handle: {}", show(other))),
+                };
+            }
             12 => {
                 cmd = "glob_array";
                 args = vec![format!("{}/**/*", root)];
@@ -669,7 +699,7 @@ fn case_t(t: &mut Tape, st: &mut Stats) -> Verdict {
 pub fn property() -> Property {
     Property {
         id: "C18",
-        rule: "histories of 1..30 (thorough ..80) file operations inside a fresh tmpfs scratch directory (absolute paths only): writefile, appendfile, readfile (one write in forty is a text of 8 or 16 KiB with a multi-byte character on the 8192-byte boundary, read back at once), writebinfile+readbinfile (arbitrary bytes through handles; after a refused binary write the same data is written again to another path), touch, mkdir, cp, mv, rm (with/without -r, one or two paths), rmdir, is_path_exists / is_file / is_dir, get_file_size, glob_array root/**/*, basename, dirname, join_path; path pool of files with extensions and directories without, nested, with spaces and non-ASCII, incl. paths below a file; operations on missing paths and wrong kinds. Oracle: reference tree BTreeMap<path, Dir|File(bytes)>; after EVERY step the command output and the real directory (walked with std::fs, contents read back) are compared with the model; a failing operation must leave the tree unchanged; (bulk) a directory of 1030..1729 files and a chain of 20..45 directories made by one write, built through the commands: listed (root/**/* and many/*.txt), read back, rm without -r refused, rm -r removing exactly the subtree. Non-trivial: >= 1 failing operation and a cp/mv onto an existing file or into a directory; distinct by history",
+        rule: "histories of 1..30 (thorough ..80) file operations inside a fresh tmpfs scratch directory (absolute paths only): writefile, appendfile, readfile (one write in forty is a text of 8 or 16 KiB with a multi-byte character on the 8192-byte boundary, read back at once), writebinfile+readbinfile (arbitrary bytes through handles; after a refused binary write the same data is written again to another path), touch, mkdir, cp, mv, rm (with/without -r, one or two paths), rmdir, is_path_exists / is_file / is_dir, get_file_size, glob_array root/**/* and <dir>/*.txt (names that differ in letter case only are in the pool), basename, dirname, join_path; path pool of files with extensions and directories without, nested, with spaces and non-ASCII, incl. paths below a file; operations on missing paths and wrong kinds. Oracle: reference tree BTreeMap<path, Dir|File(bytes)>; after EVERY step the command output and the real directory (walked with std::fs, contents read back) are compared with the model; a failing operation must leave the tree unchanged; (bulk) a directory of 1030..1729 files and a chain of 20..45 directories made by one write, built through the commands: listed (root/**/* and many/*.txt), read back, rm without -r refused, rm -r removing exactly the subtree. Non-trivial: >= 1 failing operation and a cp/mv onto an existing file or into a directory; distinct by history",
         assumptions: &[
             "outside the domain (not generated): directory sources for cp/mv, cp/mv with source == target, mv of a file to a missing target without an extension, mv into a directory that already holds an entry of that name, trailing separators, glob metacharacters in names, permissions, symlinks",
             "the output of rm on a missing path and of touch on a directory is not compared (the tree is)",
@@ -683,7 +713,7 @@ pub fn property() -> Property {
                     Tier::Thorough => Plan::Random { cases: 900_000, max_len: 400 },
                 },
                 case: case_q,
-                min_classes: &[("cp-onto-existing-file", 500), ("mv-onto-existing-file", 300), ("mv-into-directory", 300), ("rm-non-empty-directory-without-r", 300), ("binary-data-written-again-after-a-refused-write", 500), ("text-with-a-multi-byte-character-at-a-multiple-of-8192-bytes", 1000)],
+                min_classes: &[("cp-onto-existing-file", 500), ("mv-onto-existing-file", 300), ("mv-into-directory", 300), ("rm-non-empty-directory-without-r", 300), ("binary-data-written-again-after-a-refused-write", 500), ("text-with-a-multi-byte-character-at-a-multiple-of-8192-bytes", 1000), ("listing-by-a-pattern-with-literal-letters", 1000)],
             },
             Section {
                 name: "bulk",
